@@ -9,6 +9,10 @@ import (
 
 // Implements Tree.
 func (t *tree) RemoveExisting(ctx context.Context, key []byte) ([]byte, error) {
+	if key == nil {
+		// A nil key is the empty key (node.Key.Equal distinguishes the two).
+		key = []byte{}
+	}
 	if len(key) > maxKeySize {
 		return nil, ErrKeyTooLarge
 	}
